@@ -19,7 +19,7 @@ def visitAttrPathOld (s : VState) : List String → VM VState
     match item with
     | .null => .ok { s with stack := stack' }
     | .obj kvs => .ok { s with leftOp := Value.get kvs (bytesOf k), stack := [] }
-    | _ => .error ⟨.notAMap, s.calls⟩
+    | _ => .error ⟨.notAMap, s.calls, s.debugErr⟩
   | k :: k' :: ks =>
     let item : Value := match s.stack with
       | top :: _ => top
@@ -27,7 +27,7 @@ def visitAttrPathOld (s : VState) : List String → VM VState
     match item with
     | .null => .ok s
     | .obj kvs => visitAttrPathOld { s with stack := Value.get kvs (bytesOf k) :: s.stack } (k' :: ks)
-    | _ => .error ⟨.notAMap, s.calls⟩
+    | _ => .error ⟨.notAMap, s.calls, s.debugErr⟩
 
 /-- `y == 1 and x.a == 1` on `{y:1}`: after the first comparison the left operand register holds 1; the pinned
 path walk for `x.a` leaves it there (x is missing), so the second comparison sees 1 – the spec says `null`. -/
